@@ -1,1 +1,4 @@
-
+import ArcheGen.Build256
+import ArcheGen.Build64
+import ArcheGen.Arith
+import ArcheGen.Facts
